@@ -445,7 +445,10 @@ theorem exitE_W (cfg : ECfg) (hp : PlainW cfg) (k : Kind) (s2 w2 : ESt) (d tl2 f
   have hXb := exitArea_b cfg (setEnd F t1) (d + 1) o
   have hrec := exitFinish_record cfg (exitBase s2 (setEnd (withW F wr) t1) rest) (setEnd (withW F wr) t1)
     (withW (exitFrame cfg F t1 d o) wr) rest cfg.base.threshold (!(withW F wr).b.cyg && (withW F wr).retFl) o
-    (by simp [hp.thr, hst]; omega) hp.t.caller
+    (by
+      have hlt : t0 < t1 := by omega
+      have := durOk_of_lt cfg.base t0 t1 hlt
+      simpa [hp.thr, hst, setEnd, withW] using this) hp.t.caller
   rw [hrec] at hu
   -- the watch events of the exit hook
   have hht : hookTime (withW (exitFrame cfg F t1 d o) wr).b = hookTime (exitFrame cfg F t1 d o).b := rfl
